@@ -6,6 +6,7 @@ import (
 	"strings"
 
 	"f2gcheck/internal/ir"
+	"f2gcheck/internal/ranges"
 
 	"golang.org/x/tools/go/ssa"
 )
@@ -339,6 +340,79 @@ func c08(c *Ctx) {
 		})
 	}
 	c.R.Require("R-finite", 1)
+	c.ruleHull(monitorFns)
 	c.R.Stats["functions_with_tainted_return"] = len(t.retTaint)
 	c.R.Stats["average_update_sites"] = nsink
+}
+
+// ruleHull: (R-flow) the monitor stores UpdateSimpleMovingAvg(GetMovingAvg(), window, reading) of the same
+// sensor; (R-hull) in real arithmetic the update is a convex combination: for window >= 1 the result lies
+// between the old average and the reading (both orderings), which by induction is the hull clause.
+func (c *Ctx) ruleHull(monitorFns []*ssa.Function) {
+	tb := ir.NewTB(c.P.IsRepoFunc, c.P.FuncKey)
+	tb.InlineMaxBlocks = 0
+	n := 0
+	for _, fn := range monitorFns {
+		Calls(fn, func(cc ssa.CallInstruction) {
+			if !ir.IsInvoke(cc, PkgSensors, "Sensor", "SetMovingAvg") {
+				return
+			}
+			n++
+			key := c.FK(fn)
+			t := tb.Of(cc.Common().Args[0], nil)
+			recv := tb.Of(cc.Common().Value, nil).String()
+			ok := t.Op == "call:"+PkgUtil+".UpdateSimpleMovingAvg" && len(t.Args) == 3 &&
+				strings.HasSuffix(t.Args[0].Op, "sensors.Sensor.GetMovingAvg") && len(t.Args[0].Args) == 1 && t.Args[0].Args[0].String() == recv &&
+				t.Args[1].Op == "field:TempRollingWindowSize" &&
+				t.Args[2].Op == "res0" && len(t.Args[2].Args) == 1 && strings.HasSuffix(t.Args[2].Args[0].Op, "sensors.Sensor.GetValue") && t.Args[2].Args[0].Args[0].String() == recv
+			if ok {
+				c.R.Ok("R-flow", key, key, c.P.Pos(cc.Pos()), "SetMovingAvg(UpdateSimpleMovingAvg(s.GetMovingAvg(), tempRollingWindowSize, reading of s)) on the same sensor s")
+			} else {
+				c.R.Bad("R-flow", key, key, c.P.Pos(cc.Pos()), "the stored average is not UpdateSimpleMovingAvg(old average, tempRollingWindowSize, new reading) of the same sensor: "+t.String())
+			}
+		})
+	}
+	if n == 0 {
+		c.R.Undecided("R-flow", "none", "sensor monitor", "-", "no SetMovingAvg call in the sensor monitor (anchor unresolved)")
+	}
+	upd := c.Func(PkgUtil, "UpdateSimpleMovingAvg")
+	if upd == nil || len(upd.Params) != 3 {
+		return
+	}
+	old, win, val := upd.Params[0], upd.Params[1], upd.Params[2]
+	for _, neg := range []bool{false, true} {
+		an := ranges.New(upd)
+		an.AssumeNegativeDiff = neg
+		an.Name = func(v ssa.Value) string { return v.Name() }
+		an.Assume = func(v ssa.Value) (ranges.AV, bool) {
+			if v == ssa.Value(win) {
+				return ranges.AV{Lo: []ranges.Lin{ranges.Konst(1)}}, true // window size >= 1 (quantifier)
+			}
+			return ranges.AV{}, false
+		}
+		okAll := true
+		desc := ""
+		for _, r := range ir.Returns(upd) {
+			av := an.Eval(r.Results[0], ranges.FactsAt(r.Block(), nil))
+			desc = an.AVString(av)
+			lo, hi := ranges.Sym(old), ranges.Sym(val)
+			if neg {
+				lo, hi = hi, lo
+			}
+			if !(ranges.ProvesGE(av, lo) && ranges.ProvesLE(av, hi)) {
+				okAll = false
+			}
+		}
+		which := "reading >= old average: old <= result <= reading"
+		if neg {
+			which = "reading <= old average: reading <= result <= old"
+		}
+		key := c.FK(upd) + "|" + map[bool]string{false: "rising", true: "falling"}[neg]
+		if okAll {
+			c.R.Add(obOK("R-hull", key, c.FK(upd), c.P.Pos(upd.Pos()), "for window >= 1, in real arithmetic: "+which+"  ("+desc+")", an.Hyps))
+		} else {
+			c.R.Bad("R-hull", key, c.FK(upd), c.P.Pos(upd.Pos()), "the moving-average update is not proved to stay between the old average and the new reading ("+which+"): "+desc)
+		}
+	}
+	c.R.Require("R-hull", 2)
 }
